@@ -1180,10 +1180,18 @@ class Processor:
                         translated_path + "[{}]".format(intmin),
                         ancestry + [(data, intmin)], pathseg)
                 else:
+                    # Either bound may count from the end of the Array; the
+                    # elements selected are those between the two positions
+                    # so named, in document order, each once.
+                    first = max(intmin + len(data), 0) if intmin < 0 \
+                        else intmin
+                    last = max(intmax + len(data), 0) if intmax < 0 \
+                        else intmax
                     sliced_elements = []
-                    for slice_index in range(intmin, intmax):
-                        if not -len(data) <= slice_index < len(data):
-                            continue
+                    for slice_index in range(first, min(last, len(data))):
+                        if intmin < 0 and intmax < 0:
+                            # Report the elements as they were addressed
+                            slice_index -= len(data)
                         sliced_elements.append(NodeCoords(
                             data[slice_index], data, slice_index,
                             translated_path + "[{}]".format(slice_index),
